@@ -130,9 +130,9 @@ func c07Hand(r *lp.Run) {
 		{"K31 an alias (a schema that is only a $ref) on a schema cycle",
 			`{"openapi":"3.0.3","info":{"title":"t","version":"1"},"paths":{},"components":{"schemas":{"A":{"$ref":"#/components/schemas/B"},"B":{"type":"object","properties":{"next":{"$ref":"#/components/schemas/A"}}}}}}`,
 			`{"openapi":"3.0.3","info":{"title":"t","version":"1"},"paths":{},"components":{"schemas":{"A":{"$ref":"#/components/schemas/B"},"B":{"type":"object","properties":{"next":{"$ref":"#/components/schemas/B"}}}}}}`, "K31"},
-		{"K32 a header component used under a valid and under an invalid header name",
+		{"a header component used under a valid and under an invalid header name",
 			`{"openapi":"3.0.3","info":{"title":"t","version":"1"},"paths":{"/x":{"get":{"operationId":"x","responses":{"200":{"description":"ok","headers":{"X-Good":{"$ref":"#/components/headers/H"}}},"201":{"description":"ok","headers":{"Bad Name":{"$ref":"#/components/headers/H"}}}}}}},"components":{"headers":{"H":{"schema":{"type":"string"}}}}}`,
-			`{"openapi":"3.0.3","info":{"title":"t","version":"1"},"paths":{"/x":{"get":{"operationId":"x","responses":{"200":{"description":"ok","headers":{"X-Good":{"$ref":"#/components/headers/H"}}},"201":{"description":"ok","headers":{"Bad Name":{"schema":{"type":"string"}}}}}}}},"components":{"headers":{"H":{"schema":{"type":"string"}}}}}`, "K32"},
+			`{"openapi":"3.0.3","info":{"title":"t","version":"1"},"paths":{"/x":{"get":{"operationId":"x","responses":{"200":{"description":"ok","headers":{"X-Good":{"$ref":"#/components/headers/H"}}},"201":{"description":"ok","headers":{"Bad Name":{"schema":{"type":"string"}}}}}}}},"components":{"headers":{"H":{"schema":{"type":"string"}}}}}`, ""},
 	} {
 		outcome := func(doc string) string {
 			var o string
